@@ -147,7 +147,7 @@ def _synthetic_file(sc, sim, out):
         info.meta = meta
         infos.append(info)
     outp = sim.path('fits.fitinfo')
-    pipe.write_fit_file(outp, infos)
+    pipe.write_fit_raw(outp, infos)         # the input of filter_output must not depend on the writer it uses itself
     out.probe('synthetic_threshold_adjacent')
     return None, None, outp, pipe.read_fit_raw(outp)[1]
 
@@ -158,7 +158,7 @@ def _execute(sc, sim, out):
         fw = _synthetic_file(sc, sim, out)
         sc = dict(sc, world={'format': 0})
     else:
-        fw = pipe.fitted_world(sim, sc, out, sel=sc['fit_sel'], output_convolved=sc['output_convolved'])
+        fw = pipe.fitted_world(sim, sc, out, sel=sc['fit_sel'], output_convolved=sc['output_convolved'], raw_fallback=True)
     if fw is None:
         return
     W, d, outp, recs = fw
